@@ -4,12 +4,20 @@
 //! or replays TLC-generated cases.
 mod util;
 mod c13;
+mod c15;
+mod c18;
+mod c19;
+mod c20;
 
 fn main() {
     let args = util::Args::parse();
     util::quiet_panics();
     match args.scenario.as_str() {
         "c13" => c13::run(&args),
+        "c15" => c15::run(&args),
+        "c18" => c18::run(&args),
+        "c19" => c19::run(&args),
+        "c20" => c20::run(&args),
         other => {
             eprintln!("unknown scenario {other}");
             std::process::exit(2);
